@@ -153,42 +153,44 @@ def _close(a, b, exact):
 # ----------------------------------------------------------------------------
 
 def _ref_conformance(spec, world, full, steps):
-    """Compare with the documented function of the prefix (python loop per node).
-    Returns (n_nodes_compared, first mismatch or None)."""
+    """Compare with the documented function of the prefix: one python evaluation of
+    models/feature_ref per tree NODE (handed the prefix only), then every leaf below the node must
+    carry the node's value, for get(None) and get(t).  Returns (n_nodes_compared, first mismatch or None)."""
     env = world.env
-    T, n_sym = world.T, world.n_sym
+    T, n_sym, N = world.T, world.n_sym, world.N
     sp = world.spot.tolist()
     se = None if world.second is None else world.second.tolist()
     eps = torch.finfo(world.dtype).eps
     exact = hw.is_exact(spec)
-    fl = full.reshape(world.N, T).tolist()
-    st = [s.reshape(world.N).tolist() for s in steps]
-    orig = world.orig.tolist()
+    orig = world.orig
+    ar = torch.arange(N)
     compared = 0
-    first_bad = None
+    table = torch.empty((N, T), dtype=torch.float64)
     for t in range(T):
         g = n_sym ** (T - 1 - t)
-        last_id = None
-        ref = None
-        for r in range(world.N):
-            nid = orig[r] // g
-            if nid != last_id:
-                last_id = nid
-                ref = feature_ref.value(spec, t, sp[r][: t + 1], None if se is None else se[r][: t + 1], env)
-                if ref is None:
-                    return 0, None
-                if world.dtype == torch.float32:
-                    ref = float(torch.tensor(ref, dtype=torch.float64).to(torch.float32))
-                compared += 1
-            # every leaf below the node must carry the node's value
-            for mode, got in (("get(None)", fl[r][t]), ("get(t)", st[t][r])):
-                # log of a correctly rounded quotient: |d log| <= eps from the quotient + 1 ulp of
-                # each log implementation; 8 eps (1+|ref|) covers both, 0 where arithmetic is exact
-                tol = 0.0 if exact else 8 * eps * (1 + abs(ref))
-                ok = (got == ref) or (got != got and ref != ref) or (abs(got - ref) <= tol)
-                if not ok and first_bad is None:
-                    first_bad = (mode, t, r, got, ref)
-    return compared, first_bad
+        ids = orig // g
+        new = torch.ones(N, dtype=torch.bool)
+        new[1:] = ids[1:] != ids[:-1]
+        firsts = new.nonzero().flatten().tolist()
+        vals = []
+        for r in firsts:
+            v = feature_ref.value(spec, t, sp[r][: t + 1], None if se is None else se[r][: t + 1], env)
+            if v is None:
+                return 0, None
+            vals.append(v)
+        compared += len(firsts)
+        node_of_row = torch.cumsum(new.long(), 0) - 1
+        table[:, t] = torch.tensor(vals, dtype=torch.float64)[node_of_row]
+    ref = table.to(world.dtype)
+    # log of a correctly rounded quotient: |d log| <= eps from the quotient + 1 ulp of each log
+    # implementation; 8 eps (1+|ref|) covers both, 0 where the arithmetic is exact
+    tol = torch.zeros_like(ref) if exact else 8 * eps * (1 + ref.abs())
+    for mode, got in (("get(None)", full.reshape(N, T)), ("get(t)", torch.cat(steps, dim=1).reshape(N, T))):
+        ok = (got == ref) | (got.isnan() & ref.isnan()) | ((got - ref).abs() <= tol)
+        if not ok.all():
+            r, t = [int(x) for x in (~ok).nonzero()[0]]
+            return compared, (mode, t, r, float(got[r, t]), float(ref[r, t]))
+    return compared, None
 
 
 def _evaluates_feature(spec, w, seed):
@@ -407,7 +409,7 @@ def hedge_tree(ctx, block):
     if block.get("pl") and tuple(hedge.shape) == (N, H, T):
         _pl_at_maturity(ctx, block, hedge, tag, desc, grad, exact)
     # no cross-path coupling
-    rows = [] if grad else sub_rows(w, orig)
+    rows = [] if (grad or not block.get("coupling", True)) else sub_rows(w, orig)
     if 0 < len(rows) < N:
         world2 = hw.build_world(dict(w, rows=rows))
         kit2 = hw.make_hedger(m, world2, ctx.seed)
@@ -608,6 +610,20 @@ def model_specs(H, listed):
     return out
 
 
+def reuse_models(H):
+    base = [{"f": "moneyness"}, {"f": "time_to_maturity"}]
+    return [
+        {"model": "linear", "inputs": base + [{"f": "prev_hedge"}]},                       # uses the state
+        {"model": "user", "inputs": [{"f": "max_moneyness"}, {"f": "prev_hedge"}]},
+        {"model": "linear", "inputs": [{"f": "moneyness"}, {"f": "module_output", "module": "linear",
+                                                           "inputs": [{"f": "max_moneyness"}, {"f": "prev_hedge"}]}]},
+        {"model": "ww"},
+        {"model": "linear", "inputs": base + [{"f": "volatility"}], "mode": "stepwise"},   # ignores it
+        {"model": "bs", "mode": "stepwise"},
+        {"model": "mlp", "inputs": base + [{"f": "max_moneyness"}], "mode": "vectorised"},
+    ]
+
+
 def worlds(ctx):
     """The (underlier, derivative, listing, hedge list) configurations of the tier."""
     As = [0.875, 1.0, 1.25]
@@ -645,7 +661,10 @@ def run(ctx):
              "get(t) constant on the leaves below every depth-t node, equal to the documented function of the "
              "prefix, independent of the other paths in the batch. hedge_tree: every model x evaluation mode x "
              "world x autograd {off, on}: hedge[:, :, t] constant below every depth-t node, last column == previous "
-             "column on every leaf, compute_pl/portfolio/loss == P&L of the held position (cost > 0). Non-trivial = nodes below which the quantity takes a different value later on some leaf "
+             "column on every leaf, compute_pl/portfolio/loss == P&L of the held position (cost > 0). Applicability "
+             "of (feature | model) x derivative x underlier is decided dynamically: whatever evaluates without "
+             "raising is in scope (others are counted as not applicable). hedge_reuse: one Hedger object on trees "
+             "A, B, A, A of the same shape: same oracles on every call + equality with a fresh hedger. Non-trivial = nodes below which the quantity takes a different value later on some leaf "
              "(peeking would be observable) + leaves whose position moves before maturity")
     ctx.assume("models that couple paths (batch normalisation) are outside the property and are not generated")
     ctx.assume("user-supplied pricers of listed derivatives are represented by the documentation's Black-Scholes "
@@ -692,13 +711,17 @@ def run(ctx):
             wh = dict(w, hedge=hv)
             H = {"default": 1, "ul+listed": 2, "ul+listed+listed3": 3, "listed+ul": 2, "listed": 1}[hv]
             for m in model_specs(H, w["listed"]):
-                if not hw.model_ok(m, wh):
+                if not hw.model_shape_ok(m, wh):
+                    continue
+                probe = not hw.model_ok(m, wh)   # outside the documented table: decided dynamically
+                if probe and (hv != "default" or (ctx.quick and w["ul"] not in ("brownian", "heston", "cir"))):
                     continue
                 if ctx.quick and H > 1 and (m["model"] in ("naked",) or w["ul"] not in ("brownian", "heston", "local_vol")):
                     continue
-                hblocks.append({"world": wh, "model": m})
+                hblocks.append({"world": wh, "model": m, "probe": probe})
     # shortest horizons: T = 2 (one trading step, the last column is the only copy) and T = 3
-    for Ts, ul, kind in itertools.product((2, 3), ("brownian", "heston"), ("european", "lookback", "variance_swap")):
+    for Ts, ul, kind in itertools.product((2, 3), ("brownian", "heston"),
+                                          ("european", "lookback", "variance_swap", "forward_start")):
         w = {"ul": ul, "kind": kind, "call": True, "T": Ts, "As": A, "Av": [1 / 64, 1 / 16] if ul == "heston" else None,
              "dtype": "float64", "listed": None}
         fblocks.append({"world": w, "features": feature_specs(A, None), "conformance": True})
@@ -706,18 +729,24 @@ def run(ctx):
             wh = dict(w, hedge=hv)
             for m in model_specs(1 if hv == "default" else 2, None):
                 if hw.model_ok(m, wh):
-                    hblocks.append({"world": wh, "model": m})
+                    hblocks.append({"world": wh, "model": m, "probe": False})
+                elif hw.model_shape_ok(m, wh) and hv == "default" and Ts == 3:
+                    hblocks.append({"world": wh, "model": m, "probe": True})
     # every hedge block: positive transaction cost; autograd ON (the mode of fit / compute_loss; model
     # parameters require grad) next to autograd OFF (the mode of price); P&L and loss at maturity
     trainable = ("linear", "mlp", "user")
     both = []
     for b in hblocks:
-        b = {"world": dict(b["world"], cost=1 / 128), "model": b["model"]}
+        b = {"world": dict(b["world"], cost=1 / 128), "model": b["model"], "probe": bool(b.get("probe"))}
         wb, mb = b["world"], b["model"]
+        if b["probe"]:
+            both.append(dict(b, grad=False, pl=False, coupling=False))
+            continue
         with_pl = wb["T"] <= 4 or wb["ul"] in ("brownian", "heston")
+        b["coupling"] = ctx.thorough or wb["ul"] in ("brownian", "heston")
         both.append(dict(b, grad=False, pl=with_pl and mb["model"] in ("linear", "bs", "identity", "first")
                          and wb["ul"] in ("brownian", "heston")
-                         and (ctx.thorough or wb["kind"] in ("european", "lookback"))))
+                         and (ctx.thorough or (wb["kind"] in ("european", "lookback") and wb["ul"] == "brownian"))))
         if ctx.thorough:
             on = True
         elif mb["model"] in trainable:
@@ -727,8 +756,21 @@ def run(ctx):
             on = wb["ul"] == "brownian" and wb["kind"] == "european"
         if on:
             both.append(dict(b, grad=True, pl=with_pl and mb["model"] in trainable
-                             and wb["ul"] in ("brownian", "heston")))
+                             and wb["ul"] in ("brownian", "heston")
+                             and (ctx.thorough or wb["kind"] in ("european", "lookback"))))
     hblocks = both
+    # the same Hedger object on several trees in sequence
+    ublocks = []
+    for ul, kind, hv in itertools.product(["brownian", "heston"] if ctx.quick else ["brownian", "heston", "local_vol", "kou"],
+                                          ["european", "lookback"] if ctx.quick else list(market.OPTION_KINDS),
+                                          ["default", "ul+listed"]):
+        H = 1 if hv == "default" else 2
+        wu = {"ul": ul, "kind": kind, "call": True, "T": T, "As": A, "Av": [1 / 64, 1 / 16] if ul in ("heston",) else (
+              [0.125, 0.25] if ul == "local_vol" else None), "dtype": "float64", "listed": None, "hedge": hv, "cost": 1 / 128}
+        for m in reuse_models(H):
+            if hw.model_ok(m, wu):
+                ublocks.append({"world": wu, "model": m})
+    ctx.info["reuse_blocks"] = len(ublocks)
     ctx.info["feature_blocks"] = len(fblocks)
     ctx.info["hedge_blocks"] = len(hblocks)
     ctx.info["hedge_blocks_autograd_on"] = sum(1 for b in hblocks if b["grad"])
@@ -737,6 +779,9 @@ def run(ctx):
             ctx.run("feature_tree", b)
         for b in hblocks:
             ctx.run("hedge_tree", b)
+        for b in ublocks:
+            ctx.run("hedge_reuse", b)
     else:
         ctx.run_parallel("feature_tree", fblocks)
         ctx.run_parallel("hedge_tree", hblocks)
+        ctx.run_parallel("hedge_reuse", ublocks)
